@@ -48,6 +48,16 @@ def gen_cases(rng, tier):
         a = [hx(v, c["scalar"]) for v in distinct_params(rng, m["P"], *m["range"])]
         c["ops"] = [["observe"], ["tables"], ["svd"], ["set", a], ["observe"], ["tables"], ["svd"]]
         cases.append(c)
+    # many right-hand sides on the parallel flavour inside SMALL thread pools (2 / 4 threads; 5, 9, 11 columns): however the columns
+    # are divided among the workers, every one of them gets its coefficients
+    for j in range(6 if tier == "quick" else 48):
+        c = gen_problem(rng, quant=8, family=["exp1l", "exp2c", "rat2"][j % 3], ctor="mrhs_parallel", S=[5, 9, 11][j % 3], N=5 + j % 3,
+                        scalar=("f32" if j % 6 == 5 else "f64"))
+        c["threads"] = [2, 4][j % 2]
+        m = c["meta"]
+        a = [hx(v, c["scalar"]) for v in distinct_params(rng, m["P"], *m["range"])]
+        c["ops"] = [["observe"], ["tables"], ["svd"], ["set", a], ["observe"], ["tables"], ["svd"]]
+        cases.append(c)
     return cases
 
 
